@@ -27,10 +27,12 @@ PROPS = {
         "assumptions": ["OS file semantics and std::io::BufWriter are modelled (DESIGN §8)"],
     },
     "C02": {
-        "theorems": ["MRL.C02.C02_torn_tail", "MRL.C02.C02_resume", "MRL.C02.C02_crash", "MRL.C02.resume_nonvacuous",
+        "theorems": ["MRL.C02A.C02_crash_atomic", "MRL.C02A.C02_crash_atomic_exact", "MRL.C02A.C02_second_crash",
+                     "MRL.C02A.C02_second_crash_exact", "MRL.C02A.C02_recovered_usable_partial", "MRL.C02A.clean_crash_points",
+                     "MRL.C02.C02_torn_tail", "MRL.C02.C02_resume", "MRL.C02.C02_crash", "MRL.C02.resume_nonvacuous",
                      "MRL.C03.unlink_after_sync", "MRL.C03.flush_then_unlink_image", "MRL.C01R.C01_restart_exact"],
         "examples": 4,
-        "modules": ["MRL.Props.C02", "MRL.Props.C03", "MRL.Props.C01Restart"],
+        "modules": ["MRL.Props.C02", "MRL.Props.C03", "MRL.Props.C01Restart", "MRL.Props.C02Atomic"],
         "kinds": "ODSFRE",
         "campaigns": {"quick": [("crash", 20, 60)], "thorough": [("crash", 200, 120), ("crash-policies", 100, 100)]},
         "rule": "histories under a flush-per-operation policy; the effect trace is turned into OS-level operations through the BufWriter model; "
@@ -100,8 +102,8 @@ PROPS = {
         "theorems": ["MRL.C07.C07_roundtrip", "MRL.C07.C07_nonvacuous", "MRL.C07.writeEntryBufs_frames", "MRL.C07.entryFrames_shape",
                      "MRL.C07.writeEntry_bytes_count", "MRL.C07.decode_encode"],
         "examples": 2,
-        "kinds": "BNK",
-        "campaigns": {"quick": [("bytes", 32, 150)], "thorough": [("bytes", 400, 300), ("ops", 100, 200)]},
+        "kinds": "BNKOSDE",
+        "campaigns": {"quick": [("bytes", 32, 150), ("ops", 16, 90)], "thorough": [("bytes", 400, 300), ("ops", 200, 200)]},
         "rule": "bytes campaign through hook H4 (real RecordWriter/RecordReader over in-memory 32 KiB blocks): sequences of 1-6 entries whose "
                 "lengths are chosen so that each ends 0..15 bytes before a block end, exactly at it, spans 1-9 blocks or is ~300 KiB; written "
                 "bytes compared byte-for-byte (hash) and read-back entry-for-entry with the model; oracle: read-back = written",
